@@ -7,7 +7,7 @@ engines' `futures-concurrency` dependency redirected to that worktree (cargo `pa
 build output / evidence / replays redirected to scratch directories, so that neither /repo nor the
 committed evidence is touched. The worktree is removed afterwards.
 
-  tools/mutants.py [--only ID,ID] [--props C01,C04|all|target] [--tier quick] [--out FILE]
+  tools/mutants.py [--dir seeded|benign] [--scratch DIR] [--only ID,ID] [--props C01,C04|all|target] [--tier quick] [--out FILE]
 
 Exit code 0 always; the detection matrix is written as JSON.
 """
@@ -20,6 +20,7 @@ import time
 
 ROOT = os.path.dirname(os.path.dirname(os.path.abspath(__file__)))
 SCRATCH = "/scratch/mut"
+SEEDDIR = "seeded"
 ALL = ["C01", "C02", "C03", "C04", "C05", "C06", "C07", "C08", "C09", "C10", "C11", "C12", "C13", "C14", "C15", "C16", "C17", "C19", "C20"]
 
 
@@ -29,11 +30,14 @@ def arg(name, d=None):
 
 
 def main():
+    global SCRATCH, SEEDDIR
+    SCRATCH = arg("--scratch", SCRATCH)
+    SEEDDIR = arg("--dir", SEEDDIR)   # "seeded" (property-breaking) or "benign" (property-preserving: every check must stay silent)
     only = arg("--only")
     props_arg = arg("--props", "all")
     tier = arg("--tier", "quick")
     out_file = arg("--out", os.path.join(SCRATCH, "matrix.json"))
-    seeds = sorted(d for d in os.listdir(os.path.join(ROOT, "seeded")) if os.path.exists(os.path.join(ROOT, "seeded", d, "patch.diff")))
+    seeds = sorted(d for d in os.listdir(os.path.join(ROOT, SEEDDIR)) if os.path.exists(os.path.join(ROOT, SEEDDIR, d, "patch.diff")))
     if only:
         seeds = [s for s in seeds if s in only.split(",")]
     os.makedirs(SCRATCH, exist_ok=True)
@@ -41,12 +45,12 @@ def main():
     if os.path.exists(out_file):
         matrix = json.load(open(out_file))
     for sid in seeds:
-        meta = json.load(open(os.path.join(ROOT, "seeded", sid, "meta.json")))
+        meta = json.load(open(os.path.join(ROOT, SEEDDIR, sid, "meta.json")))
         wt = os.path.join(SCRATCH, "repo-" + sid)
         subprocess.run(["git", "-C", "/repo", "worktree", "remove", "--force", wt], stdout=subprocess.DEVNULL, stderr=subprocess.DEVNULL)
         subprocess.run(["git", "-C", "/repo", "worktree", "add", "--detach", wt, "HEAD"], check=True, stdout=subprocess.DEVNULL, stderr=subprocess.DEVNULL)
         try:
-            subprocess.run(["git", "-C", wt, "apply", os.path.join(ROOT, "seeded", sid, "patch.diff")], check=True)
+            subprocess.run(["git", "-C", wt, "apply", os.path.join(ROOT, SEEDDIR, sid, "patch.diff")], check=True)
             if props_arg == "all":
                 props = ALL
             elif props_arg == "target":
@@ -62,7 +66,7 @@ def main():
                 row[p] = {"rc": r.returncode, "violations": r.stdout.count("VIOLATION"), "wall_s": round(time.time() - t0, 1), "first": first.strip()[:300],
                           "machinery": [l for l in r.stderr.splitlines() if l.startswith("MACHINERY")][:2]}
                 print("%s %s rc=%d viol=%d %.0fs %s" % (sid, p, r.returncode, row[p]["violations"], row[p]["wall_s"], first.strip()[:160]), flush=True)
-            row["_target"] = meta["property"]
+            row["_target"] = meta.get("property", "-")
             matrix[sid] = row
             json.dump(matrix, open(out_file, "w"), indent=1)
         finally:
